@@ -1,4 +1,4 @@
-\* C04 thorough (replay 2): 1 thread, <= 3 spans (verdict free), <= 4 frames, no tasks, nesting <= 3, sync forms, incoming ids, Frame::current; every transition replayed.
+\* C04 thorough (replay 3): 1 thread, <= 3 spans (verdict free), <= 3 frames, 1 task, nesting <= 3, all forms, incoming ids, async-fn spans; every transition replayed.
 SPECIFICATION SSpec
 CONSTANTS
     NThreads = 1
@@ -7,13 +7,13 @@ CONSTANTS
     PropChoices <- MC_None
     Kinds <- MC_None
     Forms <- MC_None
-    MaxFrames = 4
-    MaxTasks = 0
+    MaxFrames = 3
+    MaxTasks = 1
     MaxDepth = 3
     Panics = FALSE
     MaxSpans = 3
     WithIncoming = TRUE
-    WithLazy = FALSE
+    WithLazy = TRUE
     Emit = TRUE
 VIEW sview
 INVARIANTS InnermostWins NoTrace StackOK FrameIds AmbientIds OneTrace ParentIsEnclosing EventCarriesInnermost IdsDistinct
